@@ -43,6 +43,10 @@ CLAIMED = {
    "TLA+ model of what the user asked to track (spec/Track.tla: literal names, glob patterns with a wildcard matcher defined in the spec) enumerated by TLC over names built from every character with a meaning in .gitattributes; real git lfs track/untrack run per behaviour; git check-attr over every name compared with the spec's set",
    "TLC enumerates all sequences of <=2 operations (track --filename, track <pattern>, the same again, untrack) over all names of <=2 characters (thorough <=3) from 13 character classes (letter, space, tab, #, !, quote, * ? [ ] backslash, non-ASCII, dot), 4 glob patterns and 3 pre-existing .gitattributes classes (absent, comments+macro+other patterns, CRLF). After every step Git's own attribute lookup is asked about every name and must report filter=lfs for exactly the spec's set; attributes of unrelated patterns must be unchanged; re-running track must leave the file byte-identical.",
    "Git 2.39's check-attr is the authority on matching. Nested directories, invocation from sub-directories and --lockable are not yet modelled. Eight genuine defects are recorded in known_findings.jsonl, each matched on the observed cause.", "DESIGN.md §5 C19"),
+ "C20": ("model_checking",
+   "TLA+ model of hook and filter.lfs.* classes under install/update/uninstall (spec/Install.tla; NoDestroy and Idempotent checked by TLC as action properties); per-edge behaviours replayed with the real git-lfs in a private HOME; hook bytes and configuration classified and compared",
+   "TLC explores every initial state with <=2 hooks/keys in a non-default class (8 hook classes incl. historical, re-indented, user script, user script containing the LFS line, LFS text + >1024 bytes padding + user tail; unset/current/historical/skip-smudge/custom values for the four keys) and every sequence of <=2 (thorough <=3, all four hooks) operations install [--force] [--skip-smudge], update [--force], uninstall. Replayed runs are judged on: a user-owned hook is byte-identical after any operation without --force, a custom filter.lfs.* value survives, a conflict is reported (non-zero exit) when a user hook or custom value stands in the way, a successful install repeated changes nothing, install + uninstall from a clean state leaves nothing behind; the classes the implementation model predicts are tracked as drift only.",
+   "Global scope + one repository's hooks; --local/--worktree/--system/--file, core.hooksPath, symlinks, non-executable hooks and implicit installs not yet modelled. uninstall removing custom filter values is a recorded finding.", "DESIGN.md §5 C20"),
 }
 
 checks = []
